@@ -8,6 +8,7 @@
 import Gzx.Proofs.DM
 import Gzx.Proofs.DMEcc
 import Gzx.Proofs.DMIlvIdx
+import Gzx.Proofs.DMIlv2
 import Gzx.Proofs.DMSizeA
 import Gzx.Proofs.DMSizeB
 import Gzx.Proofs.DMSizeC
@@ -197,9 +198,7 @@ theorem iso_example_ecc : codewords (table7.getD 0 default) [142, 164, 186] = [1
     where the reference interleaving (`DMRef.codewords`: data codeword `p` belongs to block `p mod B`, error
     codeword `k` is the `k / B`-th of block `(nData + k) mod B`) takes it from; no (block, index) is written
     twice and every position of every block is written; the block shapes are (dataLen b, dataLen b + blkErr).
-    Kernel-evaluated (`DMProofs.idxCheck`).  The value-level consequence (getDataBlocks (codewords s d) =
-    blocks of (data_b ++ ecc_b) for every d) is established on every run by the `dblocks` oracle for random
-    data of every size; as a theorem it needs only the generic scatter/gather semantics of `fillBlocks`. -/
+    Kernel-evaluated (`DMProofs.idxCheck`). -/
 theorem ecc_interleave_index_inv : ∀ p ∈ table7.zipIdx, DMProofs.idxCheck (p.2 + 1) p.1 = true := by
   intro p hp
   have h := DMProofs.idxCheck_all
@@ -210,10 +209,27 @@ theorem ecc_interleave_index_inv : ∀ p ∈ table7.zipIdx, DMProofs.idxCheck (p
 theorem ecc_interleave_targets : ∀ p ∈ table7.zipIdx,
     DMDec.dbTargets (DMDec.ofSym (p.2 + 1) p.1) = .ok ((List.range p.1.total).map (DMProofs.ownerRef p.1)) := by
   intro p hp
-  have h := ecc_interleave_index_inv p hp
-  unfold DMProofs.idxCheck at h
-  simp only [Bool.and_eq_true, decide_eq_true_eq] at h
-  exact h.1.1.1.1.1
+  exact (DMProofs.idxFacts_of_check (ecc_interleave_index_inv p hp)).targets
+
+theorem dataLens_sum : ∀ p ∈ table7.zipIdx, p.1.dataLens.sum = p.1.nData := by decide +kernel
+
+/-- `ecc_interleave_inv`: for every row of Table 7 (144x144 with its 8+2 blocks and the decoder's special
+    version-24 branch included) and EVERY data vector `d` of the symbol's capacity, the decoder's
+    DataBlocks_getDataBlocks applied to the reference codeword sequence `codewords s d` (data followed by the
+    interleaved error codewords) returns for each block `b` its data count, its data codewords
+    `d[b], d[b+B], …` and exactly the error codewords computed for that data; and the decoder's copy loop
+    `resultBytes[i·B+j] = block_j[i]` then restores the data vector.
+    (From the kernel-evaluated index maps by the generic scatter semantics of `fillBlocks`/`storeAll`.) -/
+theorem ecc_interleave_inv : ∀ p ∈ table7.zipIdx, ∀ d : List Nat, d.length = p.1.nData →
+    DMDec.getDataBlocks (codewords p.1 d) (DMDec.ofSym (p.2 + 1) p.1) =
+      .ok ((List.range p.1.blocks).map (fun b => (p.1.dataLen b, blockData p.1 d b ++ blockEcc p.1 d b))) ∧
+    DMDec.resultBytes
+      ((List.range p.1.blocks).map (fun b => (p.1.dataLen b, blockData p.1 d b ++ blockEcc p.1 d b))) = .ok d := by
+  intro p hp d hd
+  have hc := ecc_interleave_index_inv p hp
+  have F := DMProofs.idxFacts_of_check hc
+  exact ⟨DMProofs.getDataBlocks_codewords (p.2 + 1) p.1 hc d hd,
+    DMProofs.resultBytes_blocks p.1 F.hB F.hBn (dataLens_sum p hp) d hd⟩
 
 /-- the decoder's version list for rows 1..30 is built from exactly these (number, row) pairs -/
 theorem isoVersions_eq : DMDec.isoVersions = table7.zipIdx.map (fun p => DMDec.ofSym (p.2 + 1) p.1) := by
